@@ -90,7 +90,7 @@ def r2(cx, run):
             good = not again and resid and _dest_single_use(b, t)
             run.check(good, "R2", key, "`?`: Break edge returns the error without touching the writer tree again",
                       "after a failed write the function continues into the writer tree (bb %s), or the error does not reach the return" % again, mir.loc_of(t))
-    run.floor("R2", n, 20, "writer-tree call sites")
+    run.floor("R2", n, 12, "writer-tree call sites")
 
 
 def _dest_single_use(body, t):
